@@ -19,6 +19,13 @@ for pid in sorted(PROPS):
         "level_note": c["level_note"],
         "technique": c.get("technique", "contract-based deductive verification (Verus contracts on mechanically extracted real functions)"),
     })
+na = list(NOT_APPLICABLE)
+have = set(PROPS) | set(x["property_id"] for x in na)
+for l in open(os.path.join(ROOT, "properties.jsonl")):
+    pid = json.loads(l)["id"]
+    if pid not in have:
+        na.append({"property_id": pid, "reason": "no check registered at this commit: the contracts planned for it in DESIGN.md are not built/verified yet, so nothing is claimed"})
+na.sort(key=lambda x: x["property_id"])
 m = {
     "version": 1,
     "setup_cmd": "./setup.sh",
@@ -36,8 +43,8 @@ m = {
          "kind_free_text": "Kani 0.68 / CBMC 6.11 on a verbatim copy of /repo with harness modules appended under cfg(kani)"},
     ],
     "checks": checks,
-    "not_applicable": NOT_APPLICABLE,
+    "not_applicable": na,
     "notes": "All checks: exit 0 = every obligation discharged; exit 1 + VIOLATION line = an obligation that is discharged on the unchanged tree now fails; exit 2 = undecided (lost anchor / tool failure / resource limit), never an alarm. See DESIGN.md.",
 }
 json.dump(m, open(os.path.join(ROOT, "MANIFEST.json"), "w"), indent=1)
-print("MANIFEST.json: %d checks, %d not applicable" % (len(checks), len(NOT_APPLICABLE)))
+print("MANIFEST.json: %d checks, %d not applicable" % (len(checks), len(na)))
